@@ -217,67 +217,99 @@ def stdSpecObjectAttrs : List (Str × Kind × Field) :=
 /-- `(name, type)`; the only entry reads `module.long_name` -/
 def stdSpecificationAttrs : List (Str × Kind) := [("Description".toList, .xhtml)]
 
-/-! ## the abstract document -/
+/-! ## the abstract document
+
+Every element stores the *key* its `IDENTIFIER` (and the `*-REF` texts pointing to other elements) is
+built from; `…ident`/`…Ref` give the identifiers. Upper-casing has already been applied to the keys. -/
 
 structure EnumValueEl where
-  id : Ident
+  uuid : Str                            -- `_<uuid>`
   longName : Option Str
   desc : Option Str
 deriving DecidableEq
 
+inductive DtKey
+  | std (n : Str)                       -- `_STD-DATATYPE-ReqIF.<n>`
+  | custom (dt : Option Str) (k : Kind) -- `_<dt|NULL-DATATYPE>--<k>`
+deriving DecidableEq
+
+def DtKey.ident : DtKey → Ident
+  | .std n => .stdDatatype n
+  | .custom dt k => .datatype dt k
+
 structure DatatypeEl where
-  id : Ident
+  key : DtKey
   kind : Kind
   longName : Option Str
   values : Option (List EnumValueEl)     -- `SPECIFIED-VALUES` present?
 deriving DecidableEq
 
+/-- `ATTRIBUTE-DEFINITION-<kind>` of a definition collected from the module -/
 structure AttrDefEl where
-  id : Ident
+  ad : Option Str                        -- definition uuid / `NULL-ATTRIBUTE-DEFINITION`
   kind : Kind
   longName : Option Str
   desc : Option Str
   multiValued : Option Bool
-  dtRef : Ident
+  dt : Option Str                        -- `TYPE`: `DATATYPE-DEFINITION-<kind>-REF` = `_<dt|NULL-DATATYPE>--<kind>`
 deriving DecidableEq
 
+/-- `SPEC-OBJECT-TYPE`; the standard attribute definitions are `(name, type)` -/
 structure SpecTypeEl where
-  id : Ident
+  rt : Option Str                        -- requirement type uuid / `NULL-SPEC-OBJECT-TYPE`
   longName : Option Str
   desc : Option Str
-  std : List AttrDefEl
+  std : List (Str × Kind)
   custom : List AttrDefEl
 
-structure ValueEl where
+/-- `SPECIFICATION-TYPE` -/
+structure SpecificationTypeEl where
+  mt : Option Str
+  longName : Option Str
+  desc : Option Str
+  std : List (Str × Kind)
+
+/-- `ATTRIBUTE-VALUE-<kind>` of a standard attribute -/
+structure StdValueEl where
+  name : Str
   kind : Kind
-  defRef : Ident
   theValue : Option Str                  -- `THE-VALUE` attribute resp. converted XHTML child
-  enumRefs : List Ident
+deriving DecidableEq
+
+/-- `ATTRIBUTE-VALUE-<kind>` of a value attribute -/
+structure AttrValueEl where
+  ad : Option Str
+  kind : Kind
+  theValue : Option Str
+  enumRefs : List Str                    -- `ENUM-VALUE-REF`s: `_<uuid>`
 deriving DecidableEq
 
 structure SpecObjectEl where
-  id : Ident
+  uuid : Str
   longName : Option Str
-  values : List ValueEl
-  typeRef : Ident
+  rt : Option Str                        -- `SPEC-OBJECT-TYPE-REF`, and the owner of every `DEFINITION` ref
+  std : List StdValueEl
+  attrs : List AttrValueEl
+deriving DecidableEq
 
+/-- `SPEC-HIERARCHY`: `IDENTIFIER = _<uuid>--HIER`, `SPEC-OBJECT-REF = _<uuid>` -/
 structure HierEl where
-  id : Ident
-  objRef : Ident
+  uuid : Str
+deriving DecidableEq
 
 structure SpecificationEl where
-  id : Ident
+  uuid : Str
   longName : Option Str
   desc : Option Str
-  typeRef : Ident
-  values : List ValueEl
+  mt : Option Str
+  values : List StdValueEl
   children : List HierEl
 
 structure Doc where
-  headerId : Ident
+  headerUuid : Str
   datatypes : List DatatypeEl
   specTypes : List SpecTypeEl
-  specificationType : SpecTypeEl
+  specificationType : SpecificationTypeEl
   specObjects : List SpecObjectEl
   specification : SpecificationEl
 
@@ -315,26 +347,30 @@ def adefsOf (m : Module) (k : Option Str) : List ADKey :=
 
 def stdDatatypes : List DatatypeEl :=
   (dedupBy (·.1) (stdSpecObjectAttrs.map (fun x => (x.1, x.2.1)) ++ stdSpecificationAttrs)).map
-    (fun x => { id := .stdDatatype x.1, kind := x.2, longName := some ("ReqIF.".toList ++ x.1), values := none })
+    (fun x => { key := .std x.1, kind := x.2, longName := some ("ReqIF.".toList ++ x.1), values := none })
 
 def dtOf (d : Option AttrDef) : Option DataType := d.bind (·.dataType)
 
-def dtIdent (d : Option AttrDef) (k : Kind) : Ident := .datatype ((dtOf d).map (fun t => up t.uuid)) k
+/-- `attrdef.data_type.uuid.upper()` or `NULL-DATATYPE` -/
+def dtUuid (d : Option AttrDef) : Option Str := (dtOf d).map (fun t => up t.uuid)
 
 def enumValueEl (v : EnumValue) : EnumValueEl :=
-  { id := .obj (up v.uuid), longName := nonEmpty v.longName, desc := nonEmpty v.description }
+  { uuid := up v.uuid, longName := nonEmpty v.longName, desc := nonEmpty v.description }
 
 def datatypeEl (x : ADKey) : DatatypeEl :=
-  { id := dtIdent x.1 x.2
+  { key := .custom (dtUuid x.1) x.2
     kind := x.2
     longName := (dtOf x.1).bind (fun t => nonEmpty t.longName)
     values := match x.1 with
-      | some d => if d.isEnum then some (((dtOf x.1).map (·.values)).getD [] |>.map enumValueEl) else none
+      | some d => if d.isEnum then some ((((dtOf x.1).map (·.values)).getD []).map enumValueEl) else none
       | none => none }
+
+/-- `chain.from_iterable(reqtypes.values())` -/
+def allAdefs (m : Module) : List ADKey := (reqTypes m).flatMap (fun t => adefsOf m (t.map (·.uuid)))
 
 /-- `visited_types`: the first definition that yields an identifier emits the datatype -/
 def customDatatypes (m : Module) : List DatatypeEl :=
-  dedupBy (·.id) (((reqTypes m).flatMap (fun t => adefsOf m (t.map (·.uuid)))).map datatypeEl)
+  dedupBy (·.key) ((allAdefs m).map datatypeEl)
 
 /-- code point order on strings (Python's `sorted` key order) -/
 def strLe : Str → Str → Bool
@@ -343,42 +379,41 @@ def strLe : Str → Str → Bool
   | a :: as, b :: bs => if a.val < b.val then true else if b.val < a.val then false else strLe as bs
 
 def datatypes (m : Module) : List DatatypeEl :=
-  (stdDatatypes ++ customDatatypes m).mergeSort (fun a b => strLe a.id.render b.id.render)
+  (stdDatatypes ++ customDatatypes m).mergeSort (fun a b => strLe a.key.ident.render b.key.ident.render)
 
 /-! ## `_build_spec_object_types`, `_build_specification_type` -/
 
-def stdAttrDefEl (owner : Str → Ident) (x : Str × Kind) : AttrDefEl :=
-  { id := owner x.1, kind := x.2, longName := some ("ReqIF.".toList ++ x.1), desc := none,
-    multiValued := none, dtRef := .stdDatatype x.1 }
-
-def attrDefEl (rt : Option Str) (x : ADKey) : AttrDefEl :=
-  { id := .attrDef rt (x.1.map (fun d => up d.uuid)) x.2
+def attrDefEl (x : ADKey) : AttrDefEl :=
+  { ad := x.1.map (fun d => up d.uuid)
     kind := x.2
     longName := x.1.bind (fun d => nonEmpty d.longName)
     desc := x.1.bind (fun d => nonEmpty d.description)
     multiValued := if x.2 = .enumeration then x.1.map (·.multiValued) else none
-    dtRef := dtIdent x.1 x.2 }
+    dt := dtUuid x.1 }
+
+/-- the `reqtype` text of the loop: upper-cased uuid, `none` for `NULL-SPEC-OBJECT-TYPE` -/
+def rtOf (t : Option ReqType) : Option Str := t.map (fun t => up t.uuid)
 
 def specObjectType (m : Module) (t : Option ReqType) : SpecTypeEl :=
-  let rt := t.map (fun t => up t.uuid)
-  { id := sotIdent rt
+  { rt := rtOf t
     longName := match t with | some t => nonEmpty t.longName | none => some "Null spec object type".toList
     desc := match t with
       | some t => nonEmpty t.description
       | none => some "No requirement type was selected in Capella.".toList
-    std := stdSpecObjectAttrs.map (fun x => stdAttrDefEl (.stdAttr rt) (x.1, x.2.1))
-    custom := (adefsOf m (t.map (·.uuid))).map (attrDefEl rt) }
+    std := stdSpecObjectAttrs.map (fun x => (x.1, x.2.1))
+    custom := (adefsOf m (t.map (·.uuid))).map attrDefEl }
 
 def specTypes (m : Module) : List SpecTypeEl :=
-  ((reqTypes m).map (specObjectType m)).mergeSort (fun a b => strLe a.id.render b.id.render)
+  ((reqTypes m).map (specObjectType m)).mergeSort
+    (fun a b => strLe (sotIdent a.rt).render (sotIdent b.rt).render)
 
-def specificationType (m : Module) : SpecTypeEl :=
-  let mt := m.type.map (fun t => up t.uuid)
-  { id := stIdent mt
+def mtOf (m : Module) : Option Str := m.type.map (fun t => up t.uuid)
+
+def specificationType (m : Module) : SpecificationTypeEl :=
+  { mt := mtOf m
     longName := match m.type with | some t => some t.longName | none => some "Null specification type".toList
     desc := match m.type with | some _ => none | none => some "No module type was selected in Capella.".toList
-    std := stdSpecificationAttrs.map (stdAttrDefEl (.stdSpecAttr mt))
-    custom := [] }
+    std := stdSpecificationAttrs }
 
 /-! ## `_build_spec_objects` -/
 
@@ -395,15 +430,12 @@ def toXhtml (xhtml : Str → Option Str) (src : Str) : Option Str :=
   | none => xhtml emptyDiv
 
 /-- `_build_standard_attribute_values` -/
-def stdValues (xhtml : Str → Option Str) (r : Req) : List ValueEl :=
-  let rt := r.type.map (fun t => up t.uuid)
+def stdValues (xhtml : Str → Option Str) (r : Req) : List StdValueEl :=
   stdSpecObjectAttrs.map fun x =>
     let v := x.2.2.get r
-    { kind := x.2.1
-      defRef := .stdAttr rt x.1
-      theValue := if x.2.1 = .string then some v
-                  else toXhtml xhtml (htmlSource x.2.2 v)
-      enumRefs := [] }
+    { name := x.1
+      kind := x.2.1
+      theValue := if x.2.1 = .string then some v else toXhtml xhtml (htmlSource x.2.2 v) }
 
 /-- `THE-VALUE` of `_build_attribute_value_simple` -/
 def Value.render : Value → Option Str
@@ -417,28 +449,24 @@ def Value.render : Value → Option Str
   | .string s => some s
   | .enum _ => none
 
-def Value.enumRefs : Value → List Ident
-  | .enum vs => vs.map (fun v => .obj (up v))
+def Value.enumRefs : Value → List Str
+  | .enum vs => vs.map up
   | _ => []
 
-/-- `_ref_attribute_definition` (definition identifiers are scoped by the requirement's type) -/
-def refAttrDef (rt : Option Str) (k : Kind) (d : Option AttrDef) : Ident :=
-  .attrDef rt (d.map (fun d => up d.uuid)) k
-
-/-- `_build_attribute_value_simple` / `_build_attribute_value_enum` -/
-def attrValue (rt : Option Str) (a : Attr) : ValueEl :=
-  { kind := a.value.kind
-    defRef := refAttrDef rt a.value.kind a.defn
+/-- `_build_attribute_value_simple` / `_build_attribute_value_enum` with `_ref_attribute_definition` -/
+def attrValue (a : Attr) : AttrValueEl :=
+  { ad := a.defn.map (fun d => up d.uuid)
+    kind := a.value.kind
     theValue := a.value.render
     enumRefs := a.value.enumRefs }
 
 /-- `_build_spec_object` -/
 def specObject (xhtml : Str → Option Str) (r : Req) : SpecObjectEl :=
-  let rt := r.type.map (fun t => up t.uuid)
-  { id := .obj (up r.uuid)
+  { uuid := up r.uuid
     longName := nonEmpty r.longName
-    values := stdValues xhtml r ++ r.attrs.map (attrValue rt)
-    typeRef := sotIdent rt }
+    rt := rtOf r.type
+    std := stdValues xhtml r
+    attrs := r.attrs.map attrValue }
 
 mutual
 /-- `_build_spec_objects(parent)`: `parent.requirements`, then every folder recursively -/
@@ -452,7 +480,7 @@ end
 /-! ## `_build_specifications` -/
 
 /-- `create_hierarchy_object` -/
-def hierEl (r : Req) : HierEl := { id := .hier (up r.uuid), objRef := .obj (up r.uuid) }
+def hierEl (r : Req) : HierEl := { uuid := up r.uuid }
 
 mutual
 /-- `create_hierarchy_folder` -/
@@ -464,21 +492,20 @@ def hierarchyL : List Folder → List HierEl
 end
 
 def specification (xhtml : Str → Option Str) (m : Module) : SpecificationEl :=
-  let mt := m.type.map (fun t => up t.uuid)
-  { id := .obj (up m.uuid)
+  { uuid := up m.uuid
     longName := nonEmpty m.longName
     desc := nonEmpty m.description
-    typeRef := stIdent mt
+    mt := mtOf m
     values := stdSpecificationAttrs.map fun x =>
-      { kind := x.2, defRef := .stdSpecAttr mt x.1,
-        theValue := xhtml ("<div>".toList ++ escape m.longName ++ "</div>".toList), enumRefs := [] }
+      { name := x.1, kind := x.2,
+        theValue := xhtml ("<div>".toList ++ escape m.longName ++ "</div>".toList) }
     children := m.reqs.map hierEl ++ hierarchyL m.folders }
 
 /-! ## `_build_content` / `export_module` -/
 
 /-- the document that is written when no exception is raised -/
 def doc (xhtml : Str → Option Str) (m : Module) : Doc :=
-  { headerId := .obj (up m.modelUuid)
+  { headerUuid := up m.modelUuid
     datatypes := datatypes m
     specTypes := specTypes m
     specificationType := specificationType m
@@ -490,10 +517,13 @@ inductive Err
   | parser           -- `lxml.etree.ParserError` (only if even `<div></div>` does not parse)
 deriving DecidableEq, Repr
 
+/-- does the module hold an enumeration attribute without definition (among the collected requirements)? -/
+def hasEnumWithoutDef (m : Module) : Bool :=
+  (allAdefs m).any (fun x => x.1.isNone && x.2 == .enumeration)
+
 /-- the exceptions the exporter raises, in the order the code reaches them -/
 def errors (xhtml : Str → Option Str) (m : Module) : List Err :=
-  (if (reqTypes m).any (fun t => (adefsOf m (t.map (·.uuid))).any (fun x => x.1.isNone && x.2 == .enumeration))
-    then [Err.assertion] else [])
+  (if hasEnumWithoutDef m then [Err.assertion] else [])
   ++ (if (m.dfs.any fun r => (stdValues xhtml r).any (fun v => v.theValue.isNone)) then [Err.parser] else [])
   ++ (if ((specification xhtml m).values.any (fun v => v.theValue.isNone)) then [Err.parser] else [])
 
@@ -504,27 +534,42 @@ def «export» (xhtml : Str → Option Str) (m : Module) : Except Err Doc :=
 
 /-! ## defined identifiers and references, in document order -/
 
-def DatatypeEl.ids (d : DatatypeEl) : List Ident := d.id :: (d.values.getD []).map (·.id)
+def DatatypeEl.ids (d : DatatypeEl) : List Ident :=
+  d.key.ident :: (d.values.getD []).map (fun v => .obj v.uuid)
 
-def SpecTypeEl.ids (t : SpecTypeEl) : List Ident := t.id :: ((t.std ++ t.custom).map (·.id))
-def SpecTypeEl.refs (t : SpecTypeEl) : List Ident := (t.std ++ t.custom).map (·.dtRef)
+def AttrDefEl.ident (rt : Option Str) (a : AttrDefEl) : Ident := .attrDef rt a.ad a.kind
+def AttrDefEl.dtRef (a : AttrDefEl) : Ident := .datatype a.dt a.kind
 
-def ValueEl.refs (v : ValueEl) : List Ident := v.defRef :: v.enumRefs
+def SpecTypeEl.ids (t : SpecTypeEl) : List Ident :=
+  sotIdent t.rt :: (t.std.map (fun x => .stdAttr t.rt x.1) ++ t.custom.map (·.ident t.rt))
+def SpecTypeEl.refs (t : SpecTypeEl) : List Ident :=
+  t.std.map (fun x => .stdDatatype x.1) ++ t.custom.map (·.dtRef)
 
-def SpecObjectEl.refs (o : SpecObjectEl) : List Ident := o.values.flatMap (·.refs) ++ [o.typeRef]
+def SpecificationTypeEl.ids (t : SpecificationTypeEl) : List Ident :=
+  stIdent t.mt :: t.std.map (fun x => .stdSpecAttr t.mt x.1)
+def SpecificationTypeEl.refs (t : SpecificationTypeEl) : List Ident :=
+  t.std.map (fun x => .stdDatatype x.1)
 
-/-- every `IDENTIFIER` of the document -/
+/-- `DEFINITION` ref followed by the `ENUM-VALUE-REF`s -/
+def AttrValueEl.refs (rt : Option Str) (v : AttrValueEl) : List Ident :=
+  .attrDef rt v.ad v.kind :: v.enumRefs.map .obj
+
+/-- the `*-REF`s of a `SPEC-OBJECT`: value definitions, enumeration values, and its type -/
+def SpecObjectEl.refs (o : SpecObjectEl) : List Ident :=
+  o.std.map (fun v => .stdAttr o.rt v.name) ++ o.attrs.flatMap (·.refs o.rt) ++ [sotIdent o.rt]
+
+/-- every `IDENTIFIER` of the document, in document order -/
 def Doc.defs (d : Doc) : List Ident :=
-  d.headerId :: (d.datatypes.flatMap (·.ids) ++ d.specTypes.flatMap (·.ids) ++ d.specificationType.ids
-    ++ d.specObjects.map (·.id)
-    ++ d.specification.id :: d.specification.children.map (·.id))
+  .obj d.headerUuid :: (d.datatypes.flatMap (·.ids) ++ d.specTypes.flatMap (·.ids) ++ d.specificationType.ids
+    ++ d.specObjects.map (fun o => .obj o.uuid)
+    ++ .obj d.specification.uuid :: d.specification.children.map (fun h => .hier h.uuid))
 
-/-- the text of every `*-REF` element of the document -/
+/-- the text of every `*-REF` element of the document, in document order -/
 def Doc.refs (d : Doc) : List Ident :=
   d.specTypes.flatMap (·.refs) ++ d.specificationType.refs
     ++ d.specObjects.flatMap (·.refs)
-    ++ d.specification.typeRef :: (d.specification.values.flatMap (·.refs)
-    ++ d.specification.children.map (·.objRef))
+    ++ stIdent d.specification.mt :: (d.specification.values.map (fun v => .stdSpecAttr d.specification.mt v.name)
+    ++ d.specification.children.map (fun h => .obj h.uuid))
 
 /-! ## `export_module`: where the bytes go -/
 
